@@ -292,6 +292,8 @@ pub struct Ctx {
     pub successes: u32,
     pub freed_any: bool,
     pub enabled: u32,
+    /// first step that was skipped on this backend (later states are not comparable across backends)
+    pub first_skip: Option<usize>,
 }
 
 macro_rules! fail {
@@ -515,6 +517,7 @@ where
                         Some(f) => f,
                         None => {
                             ctx.skipped += 1;
+                ctx.first_skip.get_or_insert(ctx.step);
                             return Ok(());
                         }
                     };
@@ -526,6 +529,7 @@ where
                         Some(f) => f,
                         None => {
                             ctx.skipped += 1;
+                ctx.first_skip.get_or_insert(ctx.step);
                             return Ok(());
                         }
                     };
@@ -549,6 +553,7 @@ where
             }
             if ctx.backend == Backend::Recursive && model::idx(va, 4) == ctx.rec {
                 ctx.skipped += 1;
+                ctx.first_skip.get_or_insert(ctx.step);
                 return Ok(());
             }
             // parent flags: explicit, or derived by map_to as flags & (P|W|U) (documented)
@@ -777,6 +782,7 @@ where
             let va = ctx.pick_page(*page, lvl);
             if ctx.backend == Backend::Recursive && model::idx(va, 4) == ctx.rec {
                 ctx.skipped += 1;
+                ctx.first_skip.get_or_insert(ctx.step);
                 return Ok(());
             }
             let st = ctx.model.state(va, lvl);
@@ -830,6 +836,7 @@ where
             let va = ctx.pick_page(*page, lvl);
             if ctx.backend == Backend::Recursive && model::idx(va, 4) == ctx.rec {
                 ctx.skipped += 1;
+                ctx.first_skip.get_or_insert(ctx.step);
                 return Ok(());
             }
             let fl = ctx.pick_flags(*flags, lvl);
@@ -888,6 +895,7 @@ where
             let va = ctx.pick_page(*page, lvl);
             if ctx.backend == Backend::Recursive && model::idx(va, 4) == ctx.rec {
                 ctx.skipped += 1;
+                ctx.first_skip.get_or_insert(ctx.step);
                 return Ok(());
             }
             let pf = ctx.pick_pflags(*pflags);
@@ -968,6 +976,7 @@ where
             let va = ctx.pick_page(*page, lvl);
             if ctx.backend == Backend::Recursive && model::idx(va, 4) == ctx.rec {
                 ctx.skipped += 1;
+                ctx.first_skip.get_or_insert(ctx.step);
                 return Ok(());
             }
             if ctx.backend == Backend::Recursive {
@@ -989,6 +998,7 @@ where
             let va = sign_extend48((va0 & 0xffff_c000_0000_0000 & 0xffff_ffff_ffff) | ((va0 & 0x3fff_ffff_f000) ^ ((*off as u64) & 0x3fff_ffff)));
             if ctx.backend == Backend::Recursive && model::idx(va, 4) == ctx.rec {
                 ctx.skipped += 1;
+                ctx.first_skip.get_or_insert(ctx.step);
                 return Ok(());
             }
             if ctx.backend == Backend::Recursive {
@@ -1329,6 +1339,7 @@ pub struct BackendRun {
     pub nontrivial: u32,
     pub steps_done: usize,
     pub final_tables: usize,
+    pub first_skip: Option<usize>,
 }
 
 fn build_pages(case: &MapCase, rec: u16, avoid_rec: bool) -> Vec<u64> {
@@ -1447,6 +1458,7 @@ pub fn run_backend_opts(case: &MapCase, backend: Backend, enabled: u32, signals:
         successes: 0,
         freed_any: false,
         enabled,
+        first_skip: None,
     };
     let fail = match backend {
         Backend::Mapped => {
@@ -1485,7 +1497,7 @@ pub fn run_backend_opts(case: &MapCase, backend: Backend, enabled: u32, signals:
     let final_tables = ctx.model.tables().len();
     m.reset();
     cpu().reset();
-    BackendRun { results: ctx.results, fail, labels: ctx.labels, shape: ctx.shape, nontrivial: ctx.nontrivial, steps_done: ctx.step, final_tables }
+    BackendRun { results: ctx.results, fail, labels: ctx.labels, shape: ctx.shape, nontrivial: ctx.nontrivial, steps_done: ctx.step, final_tables, first_skip: ctx.first_skip }
 }
 
 fn run_ops<M>(ctx: &mut Ctx, mp: &mut M, case: &MapCase, enabled: u32) -> Option<Fail>
@@ -1593,9 +1605,11 @@ pub fn run_case(case: &MapCase, enabled: u32, obs: &mut Obs) -> CaseResult {
     if !stopped && enabled & T_C02 != 0 {
         let (a, b, c) = (&runs[0].1, &runs[1].1, &runs[2].1);
         let am: BTreeMap<usize, &String> = a.results.iter().map(|(i, s)| (*i, s)).collect();
+        // a call skipped on one implementation (page under the recursive slot, no usable frame) makes
+        // the later states incomparable: compare only the steps before the first skip anywhere
+        let limit = [a.first_skip, b.first_skip, c.first_skip].iter().filter_map(|x| *x).min().unwrap_or(usize::MAX);
         for (other, name) in [(b, "OffsetPageTable"), (c, "RecursivePageTable")] {
-            for (i, r) in &other.results {
-                // (the recursive run skips calls whose page lies under the recursive slot)
+            for (i, r) in other.results.iter().filter(|(i, _)| *i < limit) {
                 if let Some(ra) = am.get(i) {
                     if *ra != r {
                         return Err(format!("[C02] op #{} {:?}: MappedPageTable returned {} but {} returned {}", i, case.ops.get(*i), ra, name, r));
